@@ -188,7 +188,13 @@ def generate(rng, tier, run, seed=0):
         ops.append([k, op, refdes, gen_value(rng) if op == 'set' else None])
     paths = [list(gen_path(rng)) for _ in range(30)]
     paths += map_paths(rng, 12 if tier == 'quick' else 40)
-    return {'segs': inits, 'delims': [seg_term, ele_term, sub_term], 'ops': ops, 'paths': paths}
+    case = {'segs': inits, 'delims': [seg_term, ele_term, sub_term], 'ops': ops, 'paths': paths}
+    if run % (1500 if tier == 'quick' else 400) == 11:
+        # the path every node of a shipped map prints for itself (through pyx12's own loader)
+        import mapspec
+        ents = [e for e in mapspec.selectable() if not e['file'].startswith('841')]
+        case['pyx12_map'] = ents[(run // 400) % len(ents)]['file']
+    return case
 
 
 # ------------------------------------------------------------------ model
@@ -359,10 +365,71 @@ def execute(case):
             out.cover.add('path|%s|%s|%d' % (shape, 'abs' if not fields['relative'] else 'rel', len(fields['loops'])))
         except Exception as e:
             out.violate('exception', 'path-exception|' + _c01.exc_sig(e), 'path %r: %s' % (text, e))
+    if case.get('pyx12_map'):
+        evals += check_map_node_paths(case['pyx12_map'], out)
     out.info['evals'] = evals
     out.steps = log.seq
     out.digest = log.digest()
     return out
+
+
+def check_map_node_paths(fname, out):
+    """every node of the map, loaded by pyx12 itself: the path it prints for itself parses to its own parts and prints back unchanged"""
+    import re
+    import pyx12.map_if
+    import pyx12.params
+    import pyx12.path
+    from pyx12.errors import X12PathError
+    m = pyx12.map_if.load_map_file(fname, pyx12.params.params())
+    seen = set()
+    n = 0
+
+    def visit(node, loops, seg, ele_seq):
+        nonlocal n
+        kind = 'loop' if node.is_loop() else ('segment' if node.is_segment() else ('composite' if node.is_composite() else
+                                                                                     ('subelement' if ele_seq is not None else 'element')))
+        text = node.get_path()
+        n += 1
+        want = None
+        if kind == 'loop':
+            want = (loops + [node.id], None, None, None)
+        elif kind == 'segment':
+            want = (loops, node.id, None, None)
+        elif kind in ('element', 'composite'):
+            want = (loops, seg, node.seq, None)
+        else:
+            want = (loops, seg, ele_seq, node.seq)
+        ambiguous = kind == 'loop' and re.match(r'^[A-Z][A-Z0-9]{1,2}$', node.id or '')
+        if not ambiguous:
+            try:
+                p = pyx12.path.X12Path(text)
+                got = (list(p.loop_list), p.seg_id, p.ele_idx, p.subele_idx)
+                if got != want and ('fields', kind) not in seen:
+                    seen.add(('fields', kind))
+                    out.violate('path', 'map-node-path-fields|%s' % kind, '%s: the %s node prints its path as %r, which parses as %r; the node is %r' % (
+                        fname, kind, text, got, want))
+                elif p.format() != text and ('print', kind) not in seen:
+                    seen.add(('print', kind))
+                    out.violate('path', 'map-node-path-print|%s' % kind, '%s: the %s node prints its path as %r, X12Path prints it back as %r' % (
+                        fname, kind, text, p.format()))
+            except X12PathError as e:
+                if ('rejected', kind) not in seen:
+                    seen.add(('rejected', kind))
+                    out.violate('path', 'map-node-path-rejected|%s' % kind, '%s: the path %r of a %s node is rejected: %s' % (fname, text, kind, e))
+        out.cover.add('map-node|%s' % kind)
+        if kind == 'loop':
+            for ch in node.childIterator():
+                visit(ch, loops + [node.id], None, None)
+        elif kind == 'segment':
+            for ch in node.children:
+                visit(ch, loops, node.id, None)
+        elif kind == 'composite':
+            for ch in node.children:
+                visit(ch, loops, seg, node.seq)
+    for ordinal in sorted(m.pos_map):
+        for ch in m.pos_map[ordinal]:
+            visit(ch, [], None, None)
+    return n
 
 
 def shrink(case, still):
